@@ -2,10 +2,17 @@ package engines
 
 import (
 	"bytes"
+	"context"
 	"encoding/hex"
 	"encoding/json"
 	"fmt"
+	evclient "github.com/EscanBE/evermint/v12/client"
+	sdkclient "github.com/cosmos/cosmos-sdk/client"
+	"github.com/cosmos/cosmos-sdk/crypto/keyring"
+	"github.com/spf13/cobra"
+	"io"
 	"math/big"
+	"os"
 	"strings"
 	"testing"
 
@@ -724,6 +731,63 @@ func TestEngineCrypto(t *testing.T) {
 			p.Oracle("C19-encoding-roundtrip", "a key of the wrong size is accepted")
 		}
 		p.Count("encoding")
+	}
+	// the key export / import commands (`keys unsafe-export-eth-key`, `keys unsafe-import-eth-key`): what is exported is
+	// the hex of the 32 key bytes and imports back to the same key — also for a key whose first byte is zero
+	{
+		kr := keyring.NewInMemory(cdc, evhd.MultiSecp256k1Option())
+		runCmd := func(cmd *cobra.Command, stdin string, args ...string) (string, error) {
+			clientCtx := sdkclient.Context{}.WithKeyring(kr).WithCodec(cdc)
+			cctx := context.WithValue(context.Background(), sdkclient.ClientContextKey, &clientCtx)
+			cmd.SetArgs(args)
+			cmd.SetIn(strings.NewReader(stdin))
+			cmd.SetOut(io.Discard)
+			cmd.SetErr(io.Discard)
+			orig := os.Stdout
+			rd, wr, err := os.Pipe()
+			require.NoError(t, err)
+			os.Stdout = wr
+			done := make(chan string)
+			go func() {
+				var buf bytes.Buffer
+				_, _ = io.Copy(&buf, rd)
+				done <- buf.String()
+			}()
+			errExec := cmd.ExecuteContext(cctx)
+			_ = wr.Close()
+			os.Stdout = orig
+			return <-done, errExec
+		}
+		type kcase struct{ name, mnemonic, path string }
+		cases := []kcase{{"lead0", "picnic rent average infant boat squirrel federal assault mercy purity very motor fossil wheel verify upset box fresh horse vivid copy predict square regret", "m/44'/60'/0'/0/0"}}
+		for i := 0; i < 4; i++ {
+			mn, _ := bip39.NewMnemonic(randBytes(16))
+			cases = append(cases, kcase{fmt.Sprintf("k%d", i), mn, fmt.Sprintf("m/44'/60'/0'/0/%d", r.Intn(5))})
+		}
+		for _, kc := range cases {
+			rec, err := kr.NewAccount(kc.name, kc.mnemonic, keyring.DefaultBIP39Passphrase, kc.path, evhd.EthSecp256k1)
+			require.NoError(t, err)
+			pub, err := rec.GetPubKey()
+			require.NoError(t, err)
+			priv, err := evhd.EthSecp256k1.Derive()(kc.mnemonic, keyring.DefaultBIP39Passphrase, kc.path)
+			require.NoError(t, err)
+			want := strings.ToUpper(hex.EncodeToString(priv))
+			out, err := runCmd(evclient.UnsafeExportEthKeyCommand(), "", kc.name)
+			exported := strings.TrimSpace(out)
+			_, errImp := runCmd(evclient.UnsafeImportKeyCommand(), "password1\npassword1\n", kc.name+"-again", exported)
+			same := false
+			if errImp == nil {
+				if rec2, err := kr.Key(kc.name + "-again"); err == nil {
+					if pub2, err := rec2.GetPubKey(); err == nil && pub2 != nil {
+						same = bytes.Equal(pub2.Bytes(), pub.Bytes())
+					}
+				}
+			}
+			p.Count("key-export-import")
+			if err != nil || !strings.EqualFold(exported, want) || errImp != nil || !same {
+				p.Oracle("C19-encoding-roundtrip", "key %s (first byte %02x): export err=%v printed %d hex digits (want 64, equal=%v), import err=%v, same key after import=%v", kc.name, priv[0], err, len(exported), strings.EqualFold(exported, want), errImp, same)
+			}
+		}
 	}
 	// published vectors: the mnemonic every Ethereum dev tool ships with
 	{
